@@ -5,6 +5,7 @@ mod driver;
 mod faults;
 mod grid;
 mod lfu;
+mod miri;
 mod plan;
 mod probes;
 mod replay_aux;
@@ -91,6 +92,14 @@ fn main() {
             std::process::exit(check::run(prop, tier, seed));
         }
         Some("replay") => std::process::exit(check::replay(&args[2])),
+        // C03 thorough, Miri leg: `mc miri-dump <file>` (native) writes every transition of the tiny closures as
+        // (configuration, history, op); `mc miri-replay <file>` (under `cargo miri run`) re-executes each of them
+        Some("miri-dump") => std::process::exit(miri::dump(&args[2])),
+        Some("miri-replay") => {
+            let shard = args.get(3).and_then(|x| x.parse().ok()).unwrap_or(0);
+            let shards = args.get(4).and_then(|x| x.parse().ok()).unwrap_or(1);
+            std::process::exit(miri::replay(&args[2], shard, shards))
+        }
         _ => {}
     }
     eprintln!("usage: mc check <ID> [--tier quick|thorough] | mc replay <file> | mc explore ...");
